@@ -1822,7 +1822,9 @@ class InterFromGitBranch(branch.GenericInterBranch):
                 tag_selector=tag_selector,
             )
 
-    def _basic_push(self, overwrite, stop_revision, tag_selector=None):
+    def _basic_push(
+        self, overwrite, stop_revision, tag_selector=None, ignore_master=False
+    ):
         """Perform the basic push operation between branches.
 
         Args:
@@ -1830,6 +1832,9 @@ class InterFromGitBranch(branch.GenericInterBranch):
                 False, or a set of aspects to overwrite ('history', 'tags').
             stop_revision: Revision to push up to.
             tag_selector: Tag selection criteria.
+            ignore_master: Accepted for compatibility with
+                GenericInterBranch.push; tags are never merged into the
+                target's master here.
 
         Returns:
             BranchPushResult: Result of the push operation.
